@@ -201,6 +201,19 @@ CHECKS = {
         design_ref='DESIGN.md §2 C07; notes/C07.md',
         note='Trusted: the directory model; harness-side proxies for shutil/os/open inside vermouth.file_writer. Not reached: power loss inside one write(), concurrent writers. 12 CLI runs in the quick tier.',
         technique='Model-based history generation + exhaustive fault injection at every filesystem call of the finalisation; CLI differential against the C08 reference'),
+    'C19': dict(
+        category='exploration',
+        text=('spec-roundtrip: residue specifications generated from components by the documented grammar (incl. names ending in '
+              'digits with #, nter/cter, missing parts) must parse back to the same components. annotate: systems of 1-4 molecules '
+              'with branched residue graphs, non-monotone residue numbers, insertion codes, digit-suffixed names, identical '
+              '(chain, resid) in several molecules, and 0-4 mutation / modification requests each (existing residues with any '
+              'subset of parts, perturbed in one part, termini, matching nothing, unknown targets) against an own matcher written '
+              'from the statement: per-atom request lists on exactly the matching residues, NameError for unknown targets, a warning '
+              'for exactly the requests that match nowhere. repair: charmm peptides with requests, AnnotateMutMod + RepairGraph, '
+              'exact atom names/bonds of the requested block, old side chain gone, one residue name.'),
+        design_ref='DESIGN.md §2 C19; notes/C19.md',
+        note='Trusted: the reference matcher. Open known findings F25 (terminus request with number) and F26 (backbone N lost for a few mutation pairs) are excluded by bucket. Hydrogens stripped on mutated residues in the repair part (LCS cost).',
+        technique='Hypothesis round trip of the specification grammar; generated systems and requests vs. reference matcher; real-data repair checks'),
 }
 
 NOT_YET = 'check not built yet in this round (planned, see DESIGN.md §2)'
